@@ -3,6 +3,7 @@ package query
 import (
 	"bytes"
 	"fmt"
+	"math"
 	"math/big"
 	"strings"
 	"sync"
@@ -147,7 +148,13 @@ func SerializeKey(buf *bytes.Buffer, val value.Primary, flags *option.Flags) {
 		serializeInteger(buf, in.(*value.Integer).String())
 		value.Discard(in)
 	} else if f := value.ToFloat(val); !value.IsNull(f) {
-		serializeFloat(buf, f.(*value.Float).String())
+		// A float without a fractional part is equal to the integer of the same value (1.0 = 1)
+		// and has to share its key.
+		if i, ok := integralFloatToInt64(f.(*value.Float).Raw()); ok {
+			serializeInteger(buf, value.Int64ToStr(i))
+		} else {
+			serializeFloat(buf, f.(*value.Float).String())
+		}
 		value.Discard(f)
 	} else if dt := value.ToDatetime(val, flags.DatetimeFormat, flags.GetTimeLocation()); !value.IsNull(dt) {
 		serializeDatetime(buf, dt.(*value.Datetime).Raw())
@@ -163,6 +170,16 @@ func SerializeKey(buf *bytes.Buffer, val value.Primary, flags *option.Flags) {
 	} else {
 		serializeNull(buf)
 	}
+}
+
+// integralFloatToInt64 returns the integer a float stands for, if it has no fractional part
+// and lies in the range in which every integer is a float64 of its own (|f| <= 2^53).
+func integralFloatToInt64(f float64) (int64, bool) {
+	const maxExact = 1 << 53
+	if f < -maxExact || maxExact < f || f != math.Trunc(f) {
+		return 0, false
+	}
+	return int64(f), true
 }
 
 func SerializeIdenticalKey(buf *bytes.Buffer, val value.Primary) {
